@@ -219,6 +219,31 @@ func VerifC11AbortedV1() {
 			_, e := c.Query(&dynamodb.QueryInput{TableName: tbl, IndexName: aws.String("nosuch"), KeyConditionExpression: aws.String("p = :p"), ExpressionAttributeValues: vItem{":p": vS("k")}})
 			return e
 		},
+		func() error { return ClearTable(c, "nosuch") },
+		func() error { return AddIndex(c, "nosuch", "late", "g", "") },
+		func() error { return AddTable(c, vTbl, "p", "") },
+		func() error {
+			_, e := c.DeleteTable(&dynamodb.DeleteTableInput{TableName: aws.String("nosuch")})
+			return e
+		},
+		func() error {
+			_, e := c.DescribeTable(&dynamodb.DescribeTableInput{TableName: aws.String("nosuch")})
+			return e
+		},
+		func() error {
+			_, e := c.UpdateTable(&dynamodb.UpdateTableInput{TableName: tbl, GlobalSecondaryIndexUpdates: []*dynamodb.GlobalSecondaryIndexUpdate{{Delete: &dynamodb.DeleteGlobalSecondaryIndexAction{IndexName: aws.String("nosuch")}}}})
+			return e
+		},
+		func() error {
+			_, e := c.Scan(&dynamodb.ScanInput{TableName: aws.String("nosuch")})
+			return e
+		},
+		func() error {
+			EmulateFailure(c, FailureConditionInternalServerError)
+			_, e := c.Scan(&dynamodb.ScanInput{TableName: tbl})
+			EmulateFailure(c, FailureConditionNone)
+			return e
+		},
 	}
 	err, panicked := vCatch(aborting[nd.Choice("call", len(aborting))])
 	nd.Assert(err != nil || panicked, "C11v1-malformed-request-is-refused")
